@@ -5,17 +5,62 @@
    set-free graphs (members of a rebuilt set are stored in canonical order, so
    for sets the statement holds up to the order of members only - checked on the
    code by the correspondence run, not proved here). *)
+From Coq Require Import Permutation.
 From Boltons Require Import Lib.Prelude Lib.C08_Py Spec.C08_Spec Model.C08_Model
   Proofs.C08_Machine Proofs.C08_Tree Proofs.C08_Cycle Proofs.C08_Paths.
 
+(* members pairwise != (Python's equality, as [vcmp] of normal forms), each
+   compared with the ones before it - the order in which a set is filled *)
+Fixpoint later_ne {A} (view : A -> val) (l : list A) : Prop :=
+  match l with
+  | [] => True
+  | x :: r => (forall z, In z r -> vcmp (view z) (view x) <> Eq) /\ later_ne view r
+  end.
+
+Definition is_leaf (o : obj) : Prop := match o with OLeaf _ => True | _ => False end.
+
+(* sets/frozensets hold pairwise-unequal leaves only ("flat sets") *)
 Fixpoint no_sets (o : obj) : Prop :=
   match o with
   | ONode _ k items =>
-      is_set k = false
+      (is_set k = true ->
+         Forall (fun kv => is_leaf (snd kv)) items
+         /\ later_ne (fun x => vnorm (erase x)) (map snd items))
       /\ (fix all (l : list (key * obj)) : Prop :=
             match l with [] => True | kv :: r => no_sets (snd kv) /\ all r end) items
   | _ => True
   end.
+
+Lemma set_insert_perm : forall {A} (view : A -> val) x acc,
+  (forall y, In y acc -> vcmp (view x) (view y) <> Eq) -> Permutation (set_insert view x acc) (x :: acc).
+Proof.
+  induction acc as [|y r IH]; intro H; cbn [set_insert]; [apply Permutation_refl|].
+  destruct (vcmp (view x) (view y)) eqn:E.
+  - exfalso. exact (H y (or_introl eq_refl) E).
+  - apply Permutation_refl.
+  - eapply Permutation_trans; [apply perm_skip; apply IH; intros z Hz; apply H; right; exact Hz|].
+    apply perm_swap.
+Qed.
+
+Lemma set_of_perm : forall {A} (view : A -> val) l, later_ne view l -> Permutation (set_of view l) l.
+Proof.
+  intros A view l. unfold set_of.
+  assert (G : forall l acc, later_ne view l ->
+            (forall x, In x l -> forall y, In y acc -> vcmp (view x) (view y) <> Eq) ->
+            Permutation (fold_left (fun acc x => set_insert view x acc) l acc) (acc ++ l)).
+  { induction l0 as [|x r IH]; intros acc Hl Ha; cbn [fold_left].
+    - rewrite app_nil_r. apply Permutation_refl.
+    - destruct Hl as [Hx Hr].
+      assert (P1 : Permutation (set_insert view x acc) (x :: acc)).
+      { apply set_insert_perm. intros y Hy. apply Ha; [left; reflexivity|exact Hy]. }
+      eapply Permutation_trans; [apply IH; [exact Hr|]|].
+      + intros z Hz y Hy. apply (Permutation_in _ P1) in Hy. destruct Hy as [<-|Hy].
+        * apply Hx. exact Hz.
+        * apply Ha; [right; exact Hz|exact Hy].
+      + eapply Permutation_trans; [apply Permutation_app_tail; exact P1|].
+        cbn [app]. apply Permutation_middle. }
+  intro H. apply (G l [] H). intros x _ y [].
+Qed.
 
 Lemma no_sets_items : forall id k items, no_sets (ONode id k items) -> Forall (fun kv => no_sets (snd kv)) items.
 Proof.
@@ -26,6 +71,21 @@ Qed.
 (* the items of a container, each child reduced to WHICH object/leaf it is *)
 Definition shal (items : list (key * obj)) : list (key * oref) :=
   map (fun kv => (fst kv, oref_of (snd kv))) items.
+
+(* the items of the copy correspond to the items of the original: item by item
+   for ordered containers, as a permutation of the members for sets *)
+Definition same_items (k : kind) (items' items : list (key * obj)) : Prop :=
+  if is_set k then Permutation (map snd items') (map snd items) else shal items' = shal items.
+
+Lemma reindex_vals : forall {A} (l : list A) i, map snd (reindex_from i l) = l.
+Proof. induction l as [|x r IH]; intro i; cbn; [reflexivity|]. rewrite IH. reflexivity. Qed.
+
+Lemma shal_leaves : forall a b, shal a = shal b -> Forall (fun kv => is_leaf (snd kv)) b -> map snd a = map snd b.
+Proof.
+  induction a as [|[k v] r IH]; intros [|[k' v'] r'] H Hl; cbn in H; try discriminate; [reflexivity|].
+  inversion H; subst. inversion Hl; subst. cbn [map snd] in *. f_equal; [|apply IH; assumption].
+  destruct v'; try contradiction. destruct v; cbn in H2; try discriminate. congruence.
+Qed.
 
 Definition Inv (m : table obj) : Prop := forall j v, t_get m j = Some v -> oref_of v = RObj j.
 
@@ -93,7 +153,7 @@ Section Copy.
 
   Definition copied (m' : table obj) (o : obj) : Prop :=
     forall id k items, In (id, ONode id k items) (collect_defs o) ->
-      exists items', t_get m' id = Some (ONode id k items') /\ shal items' = shal items.
+      exists items', t_get m' id = Some (ONode id k items') /\ same_items k items' items.
 
   Definition copy_ok (o : obj) : Prop :=
     NoDup (ids o) -> wf_keys o -> no_sets o ->
@@ -161,17 +221,23 @@ Section Copy.
       destruct (children_copy items IH Hnd' (wf_items _ _ _ Hw) (no_sets_items _ _ _ Hs)
                   cp [] _ _ _ _ _ Hi0 Hm0 EC) as [Hi1 [Hsh Hcp]].
       cbn [shal map app] in Hsh.
-      assert (Hb : build erase k items' = items').
-      { destruct (shal_keys _ _ Hsh) as [Hk Hl]. destruct Hw as [Hwk _]. destruct Hs as [Hsk _].
-        apply build_wf; [assumption|]. rewrite Hk, Hl. exact Hwk. }
-      rewrite Hb.
+      assert (Hb : same_items k (build erase k items') items).
+      { unfold same_items. destruct (is_set k) eqn:Es.
+        - destruct Hs as [Hsk _]. destruct (Hsk Es) as [Hlf Hne].
+          assert (Hv : map snd items' = map snd items) by (apply shal_leaves; assumption).
+          assert (Hbv : map snd (build erase k items') = set_of (fun x => vnorm (erase x)) (map snd items')).
+          { destruct k; cbn in Es; try discriminate; cbn [build]; unfold reindex; apply reindex_vals. }
+          rewrite Hbv, Hv. apply set_of_perm. exact Hne.
+        - destruct (shal_keys _ _ Hsh) as [Hk Hl]. destruct Hw as [Hwk _].
+          rewrite build_wf; [exact Hsh|exact Es|]. rewrite Hk, Hl. exact Hwk. }
       split; [|split].
       + intros j v Hg. rewrite t_get_set in Hg. destruct (Nat.eqb j id) eqn:Ej.
         * apply Nat.eqb_eq in Ej. subst. inversion Hg. reflexivity.
         * apply Hi1. assumption.
       + reflexivity.
       + intros id0 k0 items0 Hd. cbn [collect_defs] in Hd. destruct Hd as [Ed|Hd].
-        * inversion Ed; subst. exists items'. rewrite t_get_set, Nat.eqb_refl. split; [reflexivity|assumption].
+        * inversion Ed; subst. exists (build erase k0 items'). rewrite t_get_set, Nat.eqb_refl.
+          split; [reflexivity|assumption].
         * apply in_flat_map in Hd as [kv [Hkv Hd]].
           destruct (Hcp kv Hkv id0 k0 items0 Hd) as [items1 [Hg Hs1]].
           exists items1. split; [|assumption]. rewrite t_get_set.
@@ -195,7 +261,7 @@ Theorem machine_default_copy : forall rr id k items,
     remap None rr (collect_defs root) root = Done v m lg
     /\ oref_of v = RObj id /\ t_get m id = Some v
     /\ forall j kj itemsj, In (j, ONode j kj itemsj) (collect_defs root) ->
-         exists items', t_get m j = Some (ONode j kj items') /\ shal items' = shal itemsj.
+         exists items', t_get m j = Some (ONode j kj items') /\ same_items kj items' itemsj.
 Proof.
   intros rr id k items root Hnd Hw Hs Hb.
   pose proof (machine_refines_spec None rr root Hb) as HM. cbn [lift] in HM. rewrite HM. clear HM. unfold spec_remap, srb_root, root.
